@@ -52,6 +52,11 @@ CHECKS = {
    text="2-5 tasks run generated transaction programs (Get incl. not-found, ascending/descending range scans over a prefix with inclusive/exclusive seek and early termination, Set, Delete, commit/cancel, read-only transactions) over 7 overlapping keys, together with a write-only committer and index maintenance, interleaved by the scheduler at yield points between operations, between scan steps, inside precommit and at the indexer (arbitrarily stale snapshots). All read results are recorded. Oracle: ids dense and every committed id acknowledged; committed transactions replayed serially in id order against a key-value model: each recorded read (own writes overlaid) must equal the model's answer on the state of ids < n; read-only transactions must have observed one single committed state; conflicted/cancelled transactions leave no trace.",
    note="Not generated yet: GetWithPrefix with exclusion key, reader Reset/Offset, ReadBetween, MarkPrefixScanned, SetTransient, a second index. Get on a key deleted earlier by the same transaction returns the transaction's own tombstone; the harness treats that as not found.",
    technique="deterministic simulation: seeded schedules of concurrent tx programs, serial replay in commit order vs KV model"),
+ "C06": dict(
+   level="exploration", design="DESIGN.md §7 C06",
+   text="A real pkg/database.DB (store plus its KV/SQL/document indexers) inside the bubble; 2-5 client tasks issue Set, two-key Set, Set with a precondition (must exist / must not exist / not modified after tx), Delete, Get, Scan and History over 4 keys with unique values while index flush/compaction runs; every call and return is stamped with the simulator's global event sequence number. Oracle (a), exact and polynomial because every write returns its tx id: each read must equal the model at some state between the last write that returned before the read was invoked and the last write invoked before it returned; a conditional write must have been applied iff its precondition holds on the state immediately preceding it in commit order (a refused one must have been false in some state of its interval). Oracle (b): porcupine (CheckOperationsTimeout, 10 s) on the per-key register histories of single-key operations; Illegal is a violation, Unknown is counted as inconclusive.",
+   note="Not generated yet: ExecAll, SetReference, ZAdd/ZScan, GetAll, Count, Get with SinceTx/AtTx/AtRevision. Transient 'limit exceeded' / 'read conflict' errors of writes are treated as no-effect failures.",
+   technique="deterministic simulation: seeded concurrent client histories, tx-id interval check + porcupine linearizability"),
 }
 
 NOT_APPLICABLE = [
